@@ -18,6 +18,7 @@ import (
 	"strings"
 	"sync"
 	"time"
+	"verifharness/internal/netx"
 
 	"github.com/ipfs/go-cid"
 	"github.com/ipni/go-libipni/announce"
@@ -158,7 +159,7 @@ func Execute(sc Scenario) (log []gate.Event, key, detail string) {
 	topicName := ""
 	if sc.Config != "plain" {
 		var err error
-		h, err = libp2p.New(libp2p.ListenAddrStrings("/ip4/127.0.0.1/tcp/0"))
+		h, err = netx.Retry(func() (host.Host, error) { return libp2p.New(libp2p.ListenAddrStrings("/ip4/127.0.0.1/tcp/0")) })
 		if err != nil {
 			return nil, "infra", err.Error()
 		}
